@@ -319,6 +319,26 @@ class _SubstAll(ast.NodeTransformer):
     visit_ListComp = visit_SetComp = visit_DictComp = visit_GeneratorExp = _comp
 
 
+def mutated_through(fn, t):
+    """the object bound to `t` is changed in place somewhere in fn: t[i] = .. / t.a = .. / del t[i] / t.append(..) ... (then `t` is not an explaining variable)"""
+    for n in ast.walk(fn):
+        if isinstance(n, (ast.Subscript, ast.Attribute)) and isinstance(n.ctx, (ast.Store, ast.Del)):
+            b = n
+            while isinstance(b, (ast.Subscript, ast.Attribute)):
+                b = b.value
+            if isinstance(b, ast.Name) and b.id == t:
+                return True
+        if isinstance(n, ast.AugAssign):
+            b = n.target
+            while isinstance(b, (ast.Subscript, ast.Attribute)):
+                b = b.value
+            if isinstance(b, ast.Name) and b.id == t:
+                return True
+        if isinstance(n, ast.Call) and isinstance(n.func, ast.Attribute) and n.func.attr in alpha.MUTATORS and isinstance(n.func.value, ast.Name) and n.func.value.id == t:
+            return True
+    return False
+
+
 def inline_hoisted(tree, expected):
     removed = []
     for key, fn in alpha.scopes(tree):
@@ -342,7 +362,7 @@ def inline_hoisted(tree, expected):
                         t = st.targets[0].id
                         own = list(alpha.own_nodes(fn))
                         stores = sum(1 for n in own if isinstance(n, ast.Name) and n.id == t and isinstance(n.ctx, (ast.Store, ast.Del)))
-                        if stores != 1 or any(t in alpha.free_names(n) for n in own if isinstance(n, alpha.SCOPES) and not isinstance(n, (ast.ListComp, ast.SetComp, ast.DictComp, ast.GeneratorExp))):
+                        if stores != 1 or mutated_through(fn, t) or any(t in alpha.free_names(n) for n in own if isinstance(n, alpha.SCOPES) and not isinstance(n, (ast.ListComp, ast.SetComp, ast.DictComp, ast.GeneratorExp))):
                             continue
                         reads = {n.id for n in ast.walk(st.value) if isinstance(n, ast.Name)} - {n.id for n in ast.walk(st.value) if isinstance(n, ast.Name) and isinstance(n.ctx, ast.Store)}
                         rest = body[i + 1:]
@@ -355,9 +375,13 @@ def inline_hoisted(tree, expected):
                         if loads_rest == 0 or loads_rest != loads_all:
                             continue              # read before the assignment or outside the rest of its block (e.g. in the next iteration of a loop)
                         rebound, dirty = False, False
+                        heapy = any(isinstance(n, (ast.Attribute, ast.Subscript, ast.Call)) for n in ast.walk(st.value))
                         for r in rest:                 # a read name re-bound BEFORE a later read of the temporary changes what the expression means there
                             has_load = any(isinstance(n, ast.Name) and n.id == t and isinstance(n.ctx, ast.Load) for n in ast.walk(r))
                             has_store = any(isinstance(n, ast.Name) and n.id in reads and isinstance(n.ctx, (ast.Store, ast.Del)) for n in ast.walk(r))
+                            if heapy and not has_store:           # the value reads attributes / items / calls: a write into some object in between may change it
+                                has_store = any((isinstance(n, (ast.Attribute, ast.Subscript)) and isinstance(n.ctx, (ast.Store, ast.Del))) or
+                                                (isinstance(n, ast.Call) and isinstance(n.func, ast.Attribute) and n.func.attr in alpha.MUTATORS) for n in ast.walk(r))
                             if has_load and (dirty or (has_store and not isinstance(r, (ast.Assign, ast.AugAssign, ast.AnnAssign)))):
                                 rebound = True
                                 break
